@@ -523,6 +523,28 @@ class RealEncoder(AbstractItemEncoder):
 class SequenceEncoder(AbstractItemEncoder):
     omitEmptyOptionals = False
 
+    @staticmethod
+    def _components(value):
+        # Like `value.values()`, but an OPTIONAL or DEFAULT component that was
+        # never assigned comes out as None instead of being instantiated inside
+        # `value`: a freshly instantiated container whose own components are all
+        # optional counts as a value and would be encoded as present and empty
+        namedTypes = value.componentType
+
+        if not namedTypes:
+            for component in value.values():
+                yield component
+
+            return
+
+        for idx, namedType in enumerate(namedTypes.namedTypes):
+            if namedType.isOptional or namedType.isDefaulted:
+                yield value.getComponentByPosition(
+                    idx, default=None, instantiate=False)
+
+            else:
+                yield value[idx]
+
     # TODO: handling three flavors of input is too much -- split over codecs
 
     def encodeValue(self, value, asn1Spec, encodeFun, **options):
@@ -544,9 +566,13 @@ class SequenceEncoder(AbstractItemEncoder):
 
             namedTypes = value.componentType
 
-            for idx, component in enumerate(value.values()):
+            for idx, component in enumerate(self._components(value)):
                 if namedTypes:
                     namedType = namedTypes[idx]
+
+                    if component is None:
+                        # OPTIONAL or DEFAULT component never assigned
+                        continue
 
                     if namedType.isOptional and not component.isValue:
                         if LOG:
